@@ -1,11 +1,68 @@
-/- Driver ops for C10. -/
+/- Driver ops for C10 (blurring / edge / border sets and their views). -/
 import Driver.Loop
+import Model.MaskSets
 
 open Lean Model
 
 namespace Driver.C10
 
-def ops : List (String × Op) := []
+def gridToJson (g : List (Rat × Rat)) : Json := listToJson (fun p => ratsToJson [p.1, p.2]) g
+
+def getGeom (j : Json) : Except String (Impl.Geom Rat) := do
+  let sc ← getRats (fieldD j "scales" (Json.arr #[Json.str "1", Json.str "1"]))
+  let og ← getRats (fieldD j "origin" (Json.arr #[Json.str "0", Json.str "0"]))
+  pure { sy := sc.getD 0 1, sx := sc.getD 1 1, oy := og.getD 0 0, ox := og.getD 1 0 }
+
+/-- {"op":"c10.blurring","mask":…,"kh":3,"kw":5[,"grid":true,"scales":…,"origin":…]}
+    → blurring mask (+ its pixel-centre grid = `Grid2D.blurring_grid_from`) | even_kernel | footprint_outside -/
+def blurring : Op := fun j => do
+  let m ← getMask (← field j "mask")
+  let kh ← getNat (← field j "kh")
+  let kw ← getNat (← field j "kw")
+  let wantGrid ← getBool (fieldD j "grid" (Json.bool false))
+  match Impl.blurringFrom m kh kw with
+  | .evenKernel => throw "even_kernel"
+  | .footprintOutside => throw "footprint_outside"
+  | .ok b =>
+    if wantGrid then
+      let g ← getGeom j
+      pure (obj [("bits", bitsToJson b.bits), ("grid", gridToJson (Impl.gridSlimViaMask b g))])
+    else pure (obj [("bits", bitsToJson b.bits)])
+
+/-- the util function without the odd check (`mask_2d_util.blurring_mask_2d_from`) -/
+def blurringUtil : Op := fun j => do
+  let m ← getMask (← field j "mask")
+  let kh ← getNat (← field j "kh")
+  let kw ← getNat (← field j "kw")
+  match Impl.blurringBits m kh kw with
+  | none => throw "footprint_outside"
+  | some b => pure (maskToJson { h := m.h, w := m.w, bits := b })
+
+/-- {"op":"c10.sets","mask":…,"scales":[sy,sx],"origin":[oy,ox]} → every view of edge and border -/
+def sets : Op := fun j => do
+  let m ← getMask (← field j "mask")
+  let g ← getGeom j
+  let es := Impl.edgeSlim m
+  let bs := Impl.borderSlim m
+  pure (obj [
+    ("edge_slim", natsToJson es), ("border_slim", natsToJson bs),
+    ("edge_native", listToJson pairToJson (Impl.edgeNative m)),
+    ("border_native", listToJson pairToJson (Impl.borderNative m)),
+    ("edge_mask", bitsToJson (Impl.edgeMask m).bits),
+    ("border_mask", bitsToJson (Impl.borderMask m).bits),
+    ("edge_grid", gridToJson (Impl.gridAt m g es)),
+    ("border_grid", gridToJson (Impl.gridAt m g bs)),
+    ("total_edge", natToJson (Impl.totalEdgePixels m))])
+
+/-- pixel-centre grid of any mask (used for `Grid2D.blurring_grid_from`) -/
+def grid : Op := fun j => do
+  let m ← getMask (← field j "mask")
+  let g ← getGeom j
+  pure (gridToJson (Impl.gridSlimViaMask m g))
+
+def ops : List (String × Op) :=
+  [("c10.blurring", blurring), ("c10.blurring_util", blurringUtil), ("c10.sets", sets),
+   ("c10.grid", grid)]
 
 end Driver.C10
 
